@@ -185,6 +185,26 @@ func genC01(g *Gen, tier string, w *bufio.Writer) {
 			}
 		}
 	}
+	// containers whose fields all share one type (one TypeDef object in the harness), every field
+	// count 1..17: field counts that are not powers of two leave padding after the last field
+	u64 := &Ty{Kind: KUint, N: 8}
+	for _, ft := range []*Ty{u64, {Kind: KBytesN, N: 32}, {Kind: KContainer, Fields: []*Ty{u64, u64}}, {Kind: KList, N: 4, Elem: u64},
+		{Kind: KVector, N: 5, Elem: u64}, {Kind: KUnion, Fields: []*Ty{u64, {Kind: KBool}}}, {Kind: KBitlist, N: 9}, {Kind: KBitvector, N: 300},
+		{Kind: KList, N: 3, Elem: &Ty{Kind: KContainer, Fields: []*Ty{u64}}}} {
+		for k := 1; k <= 17; k++ {
+			fs := make([]*Ty, k)
+			for i := range fs {
+				fs[i] = ft
+			}
+			ct := &Ty{Kind: KContainer, Fields: fs}
+			hn := []string{"sha", "alt"}[k%2]
+			fmt.Fprintf(w, "htr def %s %s\n", hn, ct)
+			fmt.Fprintf(w, "htr defnode %s %s\n", hn, ct)
+			v := g.RandVal(ct, 60)
+			fmt.Fprintf(w, "htr new sha %s %s\n", ct, v)
+			fmt.Fprintf(w, "htr dec sha %s %s\n", ct, v)
+		}
+	}
 	for _, n := range append(append(append([]uint64{}, smallNums...), packNums...), bitNums...) {
 		bl := &Ty{Kind: KBitlist, N: n}
 		for _, ln := range []uint64{0, 1, n / 2, n} {
